@@ -30,6 +30,10 @@ macro_rules! dispatch {
             "C10" => driver::$f(scenarios::c10::C10, $($arg),*),
             "C13" => driver::$f(scenarios::c13::C13, $($arg),*),
             "C17" => driver::$f(scenarios::c17::C17, $($arg),*),
+            "C12" => driver::$f(scenarios::c12::C12, $($arg),*),
+            "C03" => driver::$f(scenarios::c03::C03, $($arg),*),
+            "C09" => driver::$f(scenarios::c09::C09, $($arg),*),
+            "C07" => driver::$f(scenarios::c07::C07, $($arg),*),
             other => {
                 eprintln!("HARNESS-ERROR unknown property {other}");
                 2
